@@ -12,7 +12,7 @@ from harness import corr
 def ref_curve(name, el, D, tau):
     el = float(el)
     if name == "linear":
-        return D * (1 - el / tau)
+        return D * max(0.0, 1 - el / tau)
     if name == "convexe":
         return D * (1 - 1 / tau) ** (4 * el)
     if name == "convexe noscale":
